@@ -1,3 +1,33 @@
+// Package c17: harness command `c17-positions` — property C17 "Errors point at the offending byte and render
+// correctly". Four streams (components):
+//
+//	C17-validate-pos  (validatepos.go) generated (schema, valid document) pairs over four non-recursive types;
+//	    ONE violation planted in the document at a generator-known site (wrong kind of scalar / array / object,
+//	    above max, below min, too long / too short string, enum / regex / format miss, unknown key, missing
+//	    required key, element in an empty array, more than maxItems, fewer than minItems) at any nesting depth,
+//	    random whitespace layout with LF / CRLF / CR line breaks. Demanded: Validate fails and Position() is the
+//	    byte offset of the offending value — of the KEY for an unknown key, of the enclosing OBJECT for a missing
+//	    key, of the ARRAY for an item-count violation — and Error() names the document's line of that offset.
+//	    One unmutated document in eight is validated as well and must be accepted.
+//	C17-json-pos      (jsonpos.go) valid JSON texts with one byte replaced / inserted / deleted or truncated;
+//	    expected position from encoding/json's byte-at-a-time scanner (first byte that cannot continue the text;
+//	    len-1 when the text ends early); json.New(...).Check() must report that Position(). Texts made of blanks
+//	    only are skipped: the tree reports them as EMPTY document (code 203, no position), which the property's
+//	    position clause does not cover.
+//	C17-schema-pos    (schemapos.go) schema texts (root or added type) with a stray byte at a token boundary of
+//	    the example part, truncated, with an unknown rule name, or with an example that breaks its own rule.
+//	C17-render        (render.go) DocumentError rendering: exhaustive small files and random long files against
+//	    an independent reference of line number, shown source text and caret.
+//
+// Conventions calibrated on the unchanged tree (rule-level):
+//
+//	R1  a terminator byte (LF, CR, or either byte of CRLF) belongs to the line it ends;
+//	R2  a line longer than 200 bytes is shown as its first 197 bytes, left-trimmed, followed by "..."; a line of
+//	    at most 200 bytes is shown whole, left-trimmed (blanks = space and tab);
+//	R3  the caret line is "--" + (column − leading blanks) dashes + "^"; for a position inside the leading
+//	    blanks the count is 0;
+//	R4  on a line consisting of blanks only (or empty) only totality and the line number are demanded;
+//	R5  files mixing terminator styles: only totality.
 package c17
 
 import (
@@ -5,7 +35,16 @@ import (
 )
 
 func Run(args []string) {
-	rep := vh.NewReport("c17-positions", "TODO")
+	if len(args) >= 2 && args[0] == "probe" {
+		probe(args[1:])
+		return
+	}
+	rep := vh.NewReport("c17-positions", "validate: schema+valid document pairs (4 non-recursive types, rules min/max/length/regex/enum/format/items, "+
+		"optional keys, nullable, references, or of scalars) with ONE planted violation at a known offset, random layout; json: valid JSON texts with "+
+		"one byte replaced/inserted/deleted or truncated, oracle = encoding/json scanner offset; schema: stray byte at a token boundary / truncation / "+
+		"unknown rule / example breaking its rule, in the root or in an added type; render: all files of <= 6 (quick) / 7 (thorough) bytes over "+
+		"{a,space,tab,LF,CR} x all positions + random files up to 600 bytes with lines around and beyond 200 bytes. "+
+		"nontrivial = every planted case; a render file of >= 2 bytes")
 	only := ""
 	if len(args) > 0 {
 		only = args[0]
@@ -19,5 +58,9 @@ func Run(args []string) {
 	if only == "" || only == "validate" {
 		runValidatePos(rep)
 	}
+	if only == "" || only == "schema" {
+		runSchemaPos(rep)
+	}
+	rep.Exhaustive = false
 	rep.Finish()
 }
